@@ -205,7 +205,7 @@ def selector_programs():
 
 def main(tier, seed):
     rep = E2Report(PROP, tier, seed)
-    Ks = [0, 1, 3] if tier == "quick" else [0, 1, 2, 3, 4, 5]
+    Ks = [0, 1, 3] if tier == "quick" else [0, 1, 2, 3, 4]
     starts = [0, 2]
     rep.r.bounds = {"remaining_budget_K": Ks, "global_step": starts, "symbolic": "terminated/truncated of every step, rewards, epsilon rolls, batch_size in [0,3], "
                     "update/target frequencies in [1,3], learning_starts in [0,total+1], total_episodes in {None,1,2,3}"}
